@@ -110,14 +110,15 @@ func newCreateTable(ct sql.CreateTableStmt) *Schema {
 			}
 			if ct.WithoutRowid {
 				// non-rowid primary keys have a special place
-				st.setPK([]IndexColumn{
+				if !st.setPK([]IndexColumn{
 					{
 						Column:    c.Name,
 						Collate:   c.Collate,
 						SortOrder: c.PrimaryKeyDir,
 					},
-				})
-				autoindex++
+				}) {
+					autoindex++
+				}
 			} else {
 				if col.Rowid {
 					st.RowidPK = true
@@ -172,8 +173,9 @@ constraint:
 						col.Null = false
 					}
 				}
-				st.setPK(st.toIndexColumns(c.IndexedColumns))
-				autoindex++
+				if !st.setPK(st.toIndexColumns(c.IndexedColumns)) {
+					autoindex++
+				}
 				continue
 			}
 			name := fmt.Sprintf("sqlite_autoindex_%s_%d", st.Table, autoindex)
@@ -273,7 +275,9 @@ func sameIndexColumns(a, b []IndexColumn) bool {
 }
 
 // sets the PK key (for non-rowid tables). Deletes any duplicate indexes.
-func (st *Schema) setPK(cols []IndexColumn) {
+// Returns whether the primary key took the place of an existing index, in
+// which case it doesn't use up a new autoindex number.
+func (st *Schema) setPK(cols []IndexColumn) bool {
 	st.PK = cols
 	for i, ind := range st.Indexes {
 		if sameIndexColumns(ind.Columns, cols) {
@@ -281,8 +285,10 @@ func (st *Schema) setPK(cols []IndexColumn) {
 			if len(st.Indexes) == 0 {
 				st.Indexes = nil // to make test diffs easier
 			}
+			return true
 		}
 	}
+	return false
 }
 
 // Returns the index of the named column, or -1.
